@@ -29,7 +29,7 @@ where
     /// # Arguments
     ///
     /// * `group` - The group metadata from storage
-    /// * `mls_epoch` - The current epoch from the MLS group (authoritative source)
+    /// * `mls_epoch` - The MLS epoch the message was sent in (from the processed MLS message)
     /// * `event` - The wrapper Nostr event containing the encrypted message
     /// * `application_message` - The decrypted MLS application message
     /// * `sender_credential` - The MLS credential of the sender for author verification
